@@ -117,6 +117,8 @@ func mangle(r *rand.Rand, src string) string {
 }
 
 var linkExtra = []string{
+	// a //line directive after a multi-line raw string: adjusted line numbers repeat (fix 8907ee9)
+	"package a\n\nvar s = `x\ny\nz`\n\n//line l3.go:3\nvar a = 1\n\nvar b = []int{\n\t1,\n\t2,\n}\n\nfunc f() {\n\tg()\n\n\th()\n}\n",
 	"package a\n\nvar x = append(\n\ta,\n\tb...,\n)\n\nfunc f() {\n\tg(\n\t\ta,\n\t\tb..., // spread\n\t)\n\th(a, b... /* inline */)\n\tk(\n\t\ta, // first\n\t\tb, /* second */\n\t)\n}\n",
 	"package a\n\nfunc f() {\n\tswitch x {\n\tcase 1:\n\t\ta()\n\t\t// hanging\n\n\t// next case\n\tcase 2:\n\t// empty hanging\n\tdefault:\n\t}\n\tselect {\n\tcase <-c:\n\t\t// in comm\n\tcase c <- 1:\n\t}\n\tif a {\n\t\tb()\n\t\t// after b\n\t}\n\t// after if\n\n\t// before c\n\tc()\n}\n",
 	"package a\n\nvar (\n\tx = 1 // one\n\n\t// two doc\n\ty = 2\n\t// dangling\n)\n\ntype T struct {\n\tA int // a\n\t// dangling in struct\n}\n\nvar z = f(\n\ta, // first\n\t// own line\n\tb,\n)\n",
